@@ -360,6 +360,7 @@ def main(argv=None):
     ap.add_argument("--only", action="append", default=[])
     ap.add_argument("--no-evidence", action="store_true")
     ap.add_argument("--scale", type=float, default=float(os.environ.get("VERIF_SCALE", "1")))
+    ap.add_argument("--san-pass", default=None, help=argparse.SUPPRESS)   # internal: summary path
     args = ap.parse_args(argv)
     pid = args.property.upper()
     seed = int(os.environ.get("VERIF_SEED", "1") or "1")
@@ -368,7 +369,7 @@ def main(argv=None):
     os.environ.setdefault("PYTHONHASHSEED", "0")
 
     try:
-        treedir = build.ensure_build()
+        treedir = build.ensure_build(sanitize=bool(args.san_pass))
         build.activate(treedir)
     except build.BuildError as e:
         print("HARNESS-ERROR build: %s" % e)
@@ -526,6 +527,14 @@ def _run(args, pid, seed, jobs, t0, treedir, mod, subs, workdir):
                                 os.path.join(HERE, "replays", "found"))
             violations.append((sname, path, s["violation"]["message"]))
 
+    san = None
+    if (tier == "thorough" and getattr(mod, "SANITIZE", False) and not args.san_pass and not args.only
+            and not timed_out and os.environ.get("VERIF_NO_SAN") != "1"):
+        san = _sanitizer_pass(pid, args, workdir)
+        if san.get("error"):
+            harness_errors.append("sanitizer pass: %s" % san["error"])
+    san_violations = san.get("violations", 0) if san else 0
+
     wall = time.time() - t0
     for ln in lines:
         print(ln)
@@ -535,7 +544,12 @@ def _run(args, pid, seed, jobs, t0, treedir, mod, subs, workdir):
     for he in harness_errors:
         print("HARNESS-ERROR %s" % he)
 
-    if not args.no_evidence and not args.only:
+    if args.san_pass:
+        with open(args.san_pass, "w") as fh:
+            json.dump({"evaluations": evaluations, "violations": len(violations),
+                       "harness_errors": harness_errors[:5], "wall_s": round(wall, 1),
+                       "build": os.path.basename(treedir)}, fh)
+    if not args.no_evidence and not args.only and not args.san_pass:
         ev = {
             "property_id": pid, "tier": tier, "seed": seed, "level": "exploration",
             "coverage": {
@@ -554,12 +568,13 @@ def _run(args, pid, seed, jobs, t0, treedir, mod, subs, workdir):
                 "exhaustive_subdomains": sorted(set(exhaustive_done)),
                 "known_findings_open": [f["key"] for f in open_f],
                 "timed_out": timed_out,
+                "sanitizer_pass": san,
                 "harness_errors": len(harness_errors),
                 "repo": build.repo_dir(), "build": os.path.basename(treedir),
             },
             "assumptions": list(getattr(mod, "ASSUMPTIONS", [])),
             "wall_s": round(wall, 2),
-            "violations": len(violations),
+            "violations": len(violations) + san_violations,
         }
         evdir = os.path.join(HERE, "evidence")
         os.makedirs(evdir, exist_ok=True)
@@ -572,11 +587,46 @@ def _run(args, pid, seed, jobs, t0, treedir, mod, subs, workdir):
     print("%s tier=%s seed=%d: %d evaluations, %d distinct non-trivial, %d sub-checks, %d replays, "
           "%d violations, %.1fs" % (pid, tier, seed, evaluations, len(nt_all), len(per_sub),
                                     replays_run, len(violations), wall))
-    if violations:
+    if violations or san_violations:
         return 1
     if harness_errors:
         return 2
     return 0
+
+
+def _sanitizer_pass(pid, args, workdir):
+    """Re-run a reduced thorough tier in a fresh interpreter against an AddressSanitizer build of
+    the extensions (an amplifier of the same generated cases: an out-of-bounds access kills the
+    worker and the crash journal turns the case into a violation)."""
+    import subprocess
+    summary = os.path.join(workdir, "san-summary.json")
+    try:
+        libasan = subprocess.run(["gcc", "-print-file-name=libasan.so"], stdout=subprocess.PIPE,
+                                 text=True).stdout.strip()
+    except OSError as e:
+        return {"error": "gcc not available: %s" % e}
+    if not os.path.isabs(libasan) or not os.path.exists(libasan):
+        return {"error": "libasan.so not found (%r)" % libasan}
+    env = dict(os.environ)
+    env["LD_PRELOAD"] = libasan
+    env["ASAN_OPTIONS"] = "detect_leaks=0:abort_on_error=1:allocator_may_return_null=1"
+    scale = args.scale * float(getattr(sys.modules.get("checks_" + pid), "SANITIZE_SCALE", 0.05))
+    cmd = [sys.executable, "-B", "-m", "vp.runner", pid, "--tier", "thorough", "--scale", repr(scale),
+           "--san-pass", summary]
+    p = subprocess.run(cmd, cwd=HERE, env=env, stdout=subprocess.PIPE, stderr=subprocess.STDOUT, text=True,
+                       errors="replace")
+    for ln in p.stdout.splitlines():
+        if ln.startswith(("VIOLATION", "  subcheck=", "HARNESS-ERROR")):
+            print(ln if not ln.startswith("HARNESS-ERROR") else "[san] " + ln)
+    if not os.path.exists(summary):
+        return {"error": "no summary (exit %d): %s" % (p.returncode, p.stdout[-1500:])}
+    with open(summary) as fh:
+        out = json.load(fh)
+    if p.returncode == 2 and not out.get("harness_errors"):
+        out["error"] = "exit 2"
+    elif p.returncode == 2:
+        out["error"] = "; ".join(out["harness_errors"])[:1500]
+    return out
 
 
 if __name__ == "__main__":
